@@ -56,8 +56,14 @@ def install(ctx):
     orig = pt.considerPEL
 
     def considerPEL(uh, config):
+        before = (dict(vars(config)), list(config.severities), uh.eventSeverity, uh.actionFlags)
+        o_before = sel_of(config)
         res = orig(uh, config)
-        o = sel_of(config)
+        after = (dict(vars(config)), list(config.severities), uh.eventSeverity, uh.actionFlags)
+        if before != after:
+            ctx.violation("C07/selection-changed-its-inputs", "considerPEL modified the options / header it was given: %r -> %r" %
+                          (o_before, sel_of(config)))
+        o = o_before
         want = select_ref(uh.eventSeverity, uh.actionFlags, o)
         if want is None:
             ctx.counters["considerPEL.unconstrained"] += 1
